@@ -67,6 +67,8 @@ pub struct RunCtx {
     pub log: Vec<String>,
     pub probes: BTreeMap<&'static str, u64>,
     pub events_fired: u64,
+    /// Simulated time covered by sub-executions (each has its own clock).
+    pub sub_ns: u64,
 }
 
 pub const LOG_CAP: usize = 600;
@@ -84,6 +86,7 @@ impl RunCtx {
             log: Vec::new(),
             probes: BTreeMap::new(),
             events_fired: 0,
+            sub_ns: 0,
         }
     }
 }
@@ -191,6 +194,19 @@ pub fn pending_events() -> usize {
     with_ctx(|c| c.events.len())
 }
 
+/// Kind of the earliest pending event, if any (drops cancelled heap entries on the way).
+pub fn peek_event_kind() -> Option<&'static str> {
+    with_ctx(|c| {
+        while let Some(Reverse((_, id))) = c.heap.peek().copied() {
+            if let Some((kind, _)) = c.events.get(&id) {
+                return Some(*kind);
+            }
+            c.heap.pop();
+        }
+        None
+    })
+}
+
 /// Pop the earliest event, advance the clock, and hand the closure back to be fired
 /// *outside* the context borrow.
 pub fn pop_event() -> Option<(&'static str, EventFn)> {
@@ -205,6 +221,14 @@ pub fn pop_event() -> Option<(&'static str, EventFn)> {
             }
         }
         None
+    })
+}
+
+/// Account simulated time / events of a sub-execution to this run (evidence only).
+pub fn add_sub_time(ns: u64, events: u64) {
+    with_ctx(|c| {
+        c.sub_ns = c.sub_ns.saturating_add(ns);
+        c.events_fired += events;
     })
 }
 
